@@ -1195,6 +1195,36 @@ func init() {
 			}
 		}
 	})
+	// C05: after an honest signature whose r (or s) has a leading zero byte has been verified, the same 63 bytes
+	// cut one byte further along — r' = r·256 + top byte of s, s' = the rest — are another, invalid, pair
+	regExtra("C05", func(r *Runner) {
+		k := r.scalar(0)
+		pubs := [][]byte{ecc.GetPublicKeyCompressed(k), ecc.GetPublicKeyUncompressed(k)}
+		found := 0
+		for ctr := 0; ctr < 4000 && found < r.N(2, 6); ctr++ {
+			h := sha256.Sum256([]byte(fmt.Sprintf("recut-%d", ctr)))
+			rr, ss := ecc.SignECDSA(k, h[:])
+			rb, sb := rr.Bytes(), ss.Bytes()
+			var r2, s2 *big.Int
+			switch {
+			case len(rb) == 31 && len(sb) == 32:
+				r2 = new(big.Int).SetBytes(append(append([]byte{}, rb...), sb[0]))
+				s2 = new(big.Int).SetBytes(sb[1:])
+			case len(rb) == 32 && len(sb) == 31:
+				r2 = new(big.Int).SetBytes(rb[:31])
+				s2 = new(big.Int).SetBytes(append([]byte{rb[31]}, sb...))
+			default:
+				continue
+			}
+			if r2.Sign() == 0 || s2.Sign() == 0 || r2.Cmp(secpN) >= 0 || s2.Cmp(secpN) >= 0 {
+				continue
+			}
+			pub := pubs[found%2]
+			r.eccVerify(pub, h[:], rr, ss, "ecdsa-valid-short-half", true)
+			r.eccVerify(pub, h[:], r2, s2, "ecdsa-recut-after-honest", false)
+			found++
+		}
+	})
 	// C13: tweaks whose OUTPUT key has an x coordinate with a leading zero byte
 	regExtra("C13", func(r *Runner) {
 		found := 0
